@@ -28,6 +28,7 @@ pub fn history_shape(sc: &Scenario) -> String {
             BOp::Batch(_) => "batch",
             BOp::BatchLazy(..) => "batch_lazy",
             BOp::WriteTlv(..) => "write_tlv",
+            BOp::RawWrite(..) => "io_write_all",
         });
     }
     if sc.ops.len() > 10 {
